@@ -1092,4 +1092,14 @@ theorem waitsUnder_waitAll_empty (det : Nat → Bool) (k : Nat) :
     simp only [List.flatMap_cons, List.flatMap_nil, List.append_nil]
     split <;> simp [WaitsUnder]
 
+/-- ... and with the ends that the commands *not yet started* hold (the pipeline's own `stdout` file sits in the last
+    `Exec`, the shared `stderr` file in all of them): the loop's iterator owns those `Exec`s and is dropped by the
+    `return`, after the explicit releases and before `ret` (whose drop does the waiting) -/
+def cleanupSeqP (pending : List End) (owned : List (List End)) (det : Nat → Bool) : List Act :=
+  releaseAll owned ++ pending.map Act.close ++ waitAll det owned.length
+
+/-- a variant that keeps such an end in a local declared before `ret`: it is dropped after the waits -/
+def cleanupSeqPLate (pending : List End) (owned : List (List End)) (det : Nat → Bool) : List Act :=
+  releaseAll owned ++ waitAll det owned.length ++ pending.map Act.close
+
 end Pipe
